@@ -25,6 +25,12 @@ func main() {
 		fmt.Println("usage: vcheck <id> quick|thorough | vcheck replay <file> | vcheck list x")
 		os.Exit(2)
 	}
+	if os.Args[1] == "c04-deep" && len(os.Args) == 4 {
+		// child process of C04's deep-nesting probe: the parse may end the process
+		n, _ := strconv.Atoi(os.Args[3])
+		checks.C04DeepChild(os.Args[2], n)
+		return
+	}
 	if os.Args[1] == "list" {
 		for _, id := range checks.IDs() {
 			fmt.Println(id)
